@@ -7,7 +7,7 @@
      server/tcp_engine.go     serveFrame, tcpJob.rejectInPlace
      server/strict.go         ServeRaw (undecodable body => FORMERR)
      server/server.go         serveMsgBy (QDCOUNT != 1 => FORMERR)
-     middleware/edns/edns.go  ServeDNS, serveWire, ResponseWriter.WriteMsg,
+     middleware/edns/edns.go  ServeDNS, serveWire, ResponseWriter.WriteMsg, keepOneOPT, keepRelayable,
                               keepOPTOnly, stripECS, stripKeepalive, ensureOpt,
                               setCookie, setNSID, udpOverflow
      internal/dnsutil/helpers.go  SetEdns0, ClearDNSSEC, ClearOPT, NotSupported
@@ -202,6 +202,11 @@ Definition own_opts (c : cfg) (w : wstate) : list eopt :=
 Definition finish_opts (w : wstate) (l : list eopt) : list eopt :=
   strip_code code_keepalive (strip_code code_ecs l) ++ (if w_ka w then [keepalive_opt] else []).
 
+(* keepRelayable: of a response OPT's options only Extended DNS Errors are passed on *)
+Definition keep_relayable (l : list eopt) : list eopt := filter (fun e => e_code e =? code_ede) l.
+(* keepOneOPT drops every OPT but the selected one *)
+Definition drop_opts (ex : list xrr) : list xrr := filter (fun x => negb (is_opt x)) ex.
+
 (* the !noedns branch of WriteMsg, on the additional section *)
 Definition shape_ex (c : cfg) (w : wstate) (ex : list xrr) : list xrr :=
   (* the state of the writer-owned OPT when WriteMsg starts *)
@@ -213,14 +218,15 @@ Definition shape_ex (c : cfg) (w : wstate) (ex : list xrr) : list xrr :=
       let o1 := opt_set_size (opt_set_do own (w_do w)) (w_resp w) in
       ex ++ [XO (opt_set_opts o1 (finish_opts w (o_opts own ++ own_opts c w)))]
   | Some (pre, (true, o), suf) =>
-      (* the response carries the writer-owned OPT itself *)
+      (* the response carries the writer-owned OPT itself: the other OPTs go, its options are
+         reduced to EDE, then cookie / NSID are appended to it *)
       let o1 := opt_set_size (opt_set_do o (w_do w)) (w_resp w) in
-      pre ++ XO (opt_set_opts o1 (finish_opts w (o_opts o ++ own_opts c w))) :: suf
+      drop_opts pre ++ XO (opt_set_opts o1 (finish_opts w (keep_relayable (o_opts o) ++ own_opts c w))) :: suf
   | Some (pre, (false, o), suf) =>
-      (* a response OPT of its own: every option it has is KEPT, ours are merged in *)
+      (* a response OPT of its own: the other OPTs go, only its EDE stays, ours are merged in *)
       let o1 := opt_set_size (opt_set_do o (w_do w)) (w_resp w) in
       let ours := match wcur with Some wo => o_opts wo | None => [] end ++ own_opts c w in
-      pre ++ XO (opt_set_opts o1 (finish_opts w (o_opts o ++ ours))) :: suf
+      drop_opts pre ++ XO (opt_set_opts o1 (finish_opts w (keep_relayable (o_opts o) ++ ours))) :: suf
   end.
 Definition shape_opt (c : cfg) (w : wstate) (m : msg) : msg := with_ex m (shape_ex c w (m_ex m)).
 
@@ -273,22 +279,15 @@ Definition set_rcode (req : msg) (rc : N) : msg :=
 Definition not_supported (req : msg) : msg :=
   mk_msg (mk_hdr (h_id (m_hdr req)) true (h_opcode (m_hdr req)) false false true false false true false rcode_notimp) [] [] [] [].
 
-(* replace the last OPT of a section *)
-Definition replace_last_opt (ex : list xrr) (o : opt) : list xrr :=
-  match split_last_opt ex with
-  | Some (pre, _, suf) => pre ++ XO o :: suf
-  | None => ex
-  end.
-
-(* Chain.CancelWithRcode(BADVERS, do) after SetEdns0 and opt.SetVersion(0):
-   the reply carries the REQUEST's additional section *)
+(* Chain.CancelWithRcode(BADVERS, do) after SetEdns0, opt.SetVersion(0), opt.Option = nil and
+   req.Extra = [opt]: the reply carries a bare OPT and nothing else of the request's additional section *)
 Definition badvers_reply (q : msg) (f : facts) : msg :=
   let o := f_wopt f in
-  let o' := mk_opt 0 (o_size o) false (o_z o) (o_opts o) in
+  let o' := mk_opt 0 (o_size o) false (o_z o) [] in
   let m := set_rcode q rcode_badvers in
   let h := m_hdr m in
   mk_msg (mk_hdr (h_id h) true (h_opcode h) false false true true false false (h_cd h) rcode_badvers)
-         (m_q m) [] [] (map norm_x (replace_last_opt (m_ex q) o')).
+         (m_q m) [] [] [XO o'].
 
 (* ---- the byte path of the writer (WireReady said yes, WriteWire is handed a packed body) ---- *)
 (* the OPT appendWireOPT encodes: cookie, NSID, keepalive, then the Extended DNS Error the caller passes *)
